@@ -1,5 +1,7 @@
 package main
 
+import "strings"
+
 // Self-test overlays (see controls.go). Each entry is (file, old fragment, new fragment): the
 // fragment must occur exactly once in the working tree or the control is skipped.
 
@@ -637,4 +639,145 @@ func init() {
 		File: "reify.go", Old: "	case valT.gotype == baseType:\n		v, err := val.reflect(opts.opts)\n		if err != nil {\n			ctx := val.Context()\n			return reflect.Value{}, raisePathErr(err, val.meta(), \"\", ctx.path(\".\"))\n		}\n		return v, nil\n",
 		New:    "	case valT.gotype.Kind() == kind:\n		v, err := val.reflect(opts.opts)\n		if err != nil {\n			ctx := val.Context()\n			return reflect.Value{}, raisePathErr(err, val.meta(), \"\", ctx.path(\".\"))\n		}\n		return v.Convert(baseType), nil\n",
 		Expect: "R06b/ucfg.doReifyPrimitive"})
+}
+
+func init() {
+	// ---------------- targeted refactorings turned into controls ----------------
+	scanOld := "	s := strings.Split(tag, \",\")\n	opts := tagOptions{}\n	for _, opt := range s[1:] {\n"
+	scanNew := "	name, rest, more := tag, \"\", false\n	if i := strings.IndexByte(tag, ','); i >= 0 {\n		name, rest, more = tag[:i], tag[i+1:], true\n	}\n\n	opts := tagOptions{}\n	for more {\n		opt := rest\n		if i := strings.IndexByte(rest, ','); i >= 0 {\n			opt, rest = rest[:i], rest[i+1:]\n		} else {\n			more = false\n		}\n\n"
+	addControl(control{Prop: "C06", Name: "tag-scanned-comma-by-comma", Rule: "R06g", Kind: "refactor",
+		File: "util.go", Old: scanOld, New: scanNew, More: []edit{{"util.go", "	return s[0], opts\n", "	return name, opts\n"}}})
+	addControl(control{Prop: "C06", Name: "tag-scanned-comma-by-comma-from-the-name", Rule: "R06g", Kind: "mutant",
+		File: "util.go", Old: scanOld, New: strings.Replace(scanNew, "name, rest, more := tag, \"\", false\n", "name, rest, more := tag, tag, true\n", 1),
+		More: []edit{{"util.go", "	return s[0], opts\n", "	return name, opts\n"}}, Expect: "R06g/ucfg.parseTags"})
+	addControl(control{Prop: "C17", Name: "whitespace-by-index-of-first-non-space", Rule: "R17h", Kind: "refactor",
+		File: "parse/parse.go", Old: "	p.input = strings.TrimLeftFunc(p.input, unicode.IsSpace)\n", New: "	start := strings.IndexFunc(p.input, isNotSpace)\n	if start < 0 {\n		p.input = \"\"\n		return\n	}\n	p.input = p.input[start:]\n",
+		More: []edit{{"parse/parse.go", "func (p *flagParser) parseArray() (", "func isNotSpace(r rune) bool {\n	return !unicode.IsSpace(r)\n}\n\nfunc (p *flagParser) parseArray() ("}}})
+	addControl(control{Prop: "C17", Name: "whitespace-by-index-of-first-space", Rule: "R17h", Kind: "mutant",
+		File: "parse/parse.go", Old: "	p.input = strings.TrimLeftFunc(p.input, unicode.IsSpace)\n", New: "	start := strings.IndexFunc(p.input, unicode.IsSpace)\n	if start < 0 {\n		return\n	}\n	p.input = p.input[start+1:]\n", Expect: "R17h/"})
+}
+
+func init() {
+	cpyOld := "		fields.a = make([]value, len(arr))\n		for i, f := range arr {\n			ctx := f.Context()\n			v := f.cpy(context{field: ctx.field, parent: newC})\n			fields.setAt(i, newC, v)\n		}\n"
+	addControl(control{Prop: "C15", Name: "copy-elements-stored-by-index", Rule: "R15a", Kind: "refactor",
+		File: "types.go", Old: cpyOld, New: "		elems := make([]value, len(arr))\n		for i, f := range arr {\n			ctx := f.Context()\n			elems[i] = f.cpy(context{field: ctx.field, parent: newC})\n		}\n		fields.a = elems\n"})
+	addControl(control{Prop: "C15", Name: "copy-elements-stored-by-index-source-parent", Rule: "R15a", Kind: "mutant",
+		File: "types.go", Old: cpyOld, New: "		elems := make([]value, len(arr))\n		for i, f := range arr {\n			ctx := f.Context()\n			elems[i] = f.cpy(context{field: ctx.field, parent: c})\n		}\n		fields.a = elems\n", Expect: "R15a/(ucfg.cfgSub).cpy/element store"})
+	addControl(control{Prop: "C15", Name: "copy-elements-stored-by-index-shifted", Rule: "R15a", Kind: "mutant",
+		File: "types.go", Old: cpyOld, New: "		elems := make([]value, len(arr)+1)\n		for i, f := range arr {\n			ctx := f.Context()\n			elems[i+1] = f.cpy(context{field: ctx.field, parent: newC})\n		}\n		fields.a = elems[1:]\n", Expect: "R15a/(ucfg.cfgSub).cpy"})
+	addControl(control{Prop: "C09", Name: "copy-dictionary-made-on-first-name", Rule: "R09a", Kind: "refactor",
+		File: "types.go", Old: "	for name, f := range dict {\n		ctx := f.Context()\n		v := f.cpy(context{field: ctx.field, parent: newC})\n		fields.set(name, v)\n	}\n",
+		New: "	var names map[string]value\n	for name, f := range dict {\n		ctx := f.Context()\n		v := f.cpy(context{field: ctx.field, parent: newC})\n		if names == nil {\n			names = map[string]value{}\n		}\n		names[name] = v\n	}\n	fields.d = names\n"})
+	addControl(control{Prop: "C09", Name: "copy-dictionary-remade-for-every-name", Rule: "R09a", Kind: "mutant",
+		File: "types.go", Old: "	for name, f := range dict {\n		ctx := f.Context()\n		v := f.cpy(context{field: ctx.field, parent: newC})\n		fields.set(name, v)\n	}\n",
+		New: "	var names map[string]value\n	for name, f := range dict {\n		ctx := f.Context()\n		v := f.cpy(context{field: ctx.field, parent: newC})\n		if len(names) > 0 {\n			names = map[string]value{}\n		}\n		if names == nil {\n			names = map[string]value{}\n		}\n		names[name] = v\n	}\n	fields.d = names\n", Expect: "R09a/(ucfg.cfgSub).cpy"})
+}
+
+func init() {
+	renOld := "	for j := i; j < len(f.a); j++ {\n		if v := f.a[j]; v != nil {\n			ctx := v.Context()\n			ctx.field = fmt.Sprintf(\"%d\", j)\n			v.SetContext(ctx)\n		}\n	}\n	return true\n"
+	renNew := "	for off, v := range f.a[i:] {\n		if v == nil {\n			continue\n		}\n		ctx := v.Context()\n		ctx.field = fmt.Sprintf(\"%d\", i+off)\n		v.SetContext(ctx)\n	}\n	return true\n"
+	addControl(control{Prop: "C15", Name: "renumber-by-range-over-the-moved-part", Rule: "R15b", Kind: "refactor",
+		File: "ucfg.go", Old: renOld, New: renNew})
+	addControl(control{Prop: "C15", Name: "renumber-by-range-with-the-offset-only", Rule: "R15b", Kind: "mutant",
+		File: "ucfg.go", Old: renOld, New: strings.Replace(renNew, "i+off)", "off)", 1), Expect: "R15b/(*ucfg.fields).delAt"})
+	addControl(control{Prop: "C15", Name: "renumber-by-range-from-the-next-element", Rule: "R15b", Kind: "mutant",
+		File: "ucfg.go", Old: renOld, New: strings.Replace(strings.Replace(renNew, "range f.a[i:]", "range f.a[i+1:]", 1), "i+off)", "i+1+off)", 1), Expect: "R15b/(*ucfg.fields).delAt"})
+}
+
+func init() {
+	addControl(control{Prop: "C11", Name: "reference-to-section-handed-out-as-view", Rule: "R11f", Kind: "mutant", Quick: true,
+		File: "types.go", Old: "		cfg, err = v.toConfig(opts)\n	})\n	return\n", New: "		cfg, err = v.toConfig(opts)\n	})\n	if err == nil && cfg != nil {\n		cfg = &Config{ctx: d.ctx, metadata: cfg.metadata, fields: cfg.fields}\n	}\n	return\n", Expect: "R11f/(*ucfg.cfgDynamic).toConfig"})
+	addControl(control{Prop: "C11", Name: "section-header-copied-by-value", Rule: "R11f", Kind: "mutant",
+		File: "types.go", Old: "func (c cfgSub) toConfig(*options) (*Config, error) { return c.c, nil }", New: "func (c cfgSub) toConfig(*options) (*Config, error) { tmp := *c.c; return &tmp, nil }", Expect: "R11f/(ucfg.cfgSub).toConfig"})
+	addControl(control{Prop: "C11", Name: "new-config-content-in-a-local", Rule: "R11f", Kind: "refactor",
+		File: "ucfg.go", Old: "	return &Config{\n		fields: &fields{nil, nil},\n	}\n", New: "	content := &fields{}\n	cfg := &Config{}\n	cfg.fields = content\n	return cfg\n"})
+}
+
+func init() {
+	addControl(control{Prop: "C15", Name: "removed-node-detached", Rule: "R15h", Kind: "mutant", Quick: true,
+		File: "ucfg.go", Old: "	_, exists := f.d[name]\n	if exists {\n		delete(f.d, name)\n	}\n", New: "	v, exists := f.d[name]\n	if exists {\n		delete(f.d, name)\n		v.SetContext(context{})\n	}\n", Expect: "R15h/(*ucfg.fields).del"})
+	addControl(control{Prop: "C15", Name: "removed-element-detached", Rule: "R15h", Kind: "mutant",
+		File: "ucfg.go", Old: "	copy(a[i:], a[i+1:])\n	a[len(a)-1] = nil\n", New: "	if old := a[i]; old != nil {\n		old.SetContext(context{})\n	}\n	copy(a[i:], a[i+1:])\n	a[len(a)-1] = nil\n", Expect: "R15h/(*ucfg.fields).delAt"})
+	addControl(control{Prop: "C15", Name: "context-given-before-the-store", Rule: "R15h", Kind: "refactor",
+		File: "path.go", Old: "	sub.c.fields.set(n.name, v)\n	v.SetContext(context{parent: elem, field: n.name})\n", New: "	v.SetContext(context{parent: elem, field: n.name})\n	sub.c.fields.set(n.name, v)\n"})
+}
+
+func init() {
+	kvOld := "		tmp := map[string]interface{}{key: val}\n		cfg, err := ucfg.NewFrom(tmp, opts...)\n		return cfg, err, err\n"
+	addControl(control{Prop: "C19", Name: "string-setting-by-typed-setter", Rule: "R19e", Kind: "mutant", Quick: true,
+		File: "flag/value.go", Old: kvOld, New: "		if s, isString := val.(string); isString {\n			cfg := ucfg.New()\n			err := cfg.SetString(key, -1, s, opts...)\n			return cfg, err, err\n		}\n" + kvOld, Expect: "R19e/flag.NewFlagKeyValue"})
+	addControl(control{Prop: "C19", Name: "setting-merged-into-a-new-config", Rule: "R19e", Kind: "refactor",
+		File: "flag/value.go", Old: kvOld, New: "		tmp := map[string]interface{}{key: val}\n		cfg := ucfg.New()\n		if err := cfg.Merge(tmp, opts...); err != nil {\n			return nil, err, err\n		}\n		return cfg, nil, nil\n"})
+}
+
+func init() {
+	addControl(control{Prop: "C05", Name: "inlined-struct-merged-into-the-tree", Rule: "R05c", Kind: "mutant", Quick: true,
+		File: "merge.go", Old: "				err = normalizeStructInto(cfg, opts, vField)\n", New: "				sub, nerr := normalizeStruct(opts, vField)\n				if nerr != nil {\n					return nerr\n				}\n				err = mergeConfig(opts, cfg, sub)\n", Expect: "R05c/ucfg.normalizeStructInto/named store mergeConfig"})
+	arrOld := "		tmp, err := normalizeValue(opts, tagOpts, ctx, v.Index(i))\n		if err != nil {\n			return nil, err\n		}\n		out = append(out, tmp)\n	}\n\n	cfg.fields.a = out\n"
+	addControl(control{Prop: "C06", Name: "float-list-elements-read-by-kind", Rule: "R06f", Kind: "mutant", Quick: true,
+		File: "merge.go", Old: arrOld, New: "		if e := v.Index(i); e.Kind() == reflect.Float64 {\n			out = append(out, newFloat(ctx, opts.meta, e.Float()))\n			continue\n		}\n" + arrOld, Expect: "R06f/ucfg.normalizeArray/kind accessor outside normalizeValue"})
+	addControl(control{Prop: "C06", Name: "int-list-elements-read-by-kind", Rule: "R06f", Kind: "mutant",
+		File: "merge.go", Old: arrOld, New: "		if e := v.Index(i); e.Kind() == reflect.Int64 && e.Int() <= 0 {\n			out = append(out, newInt(ctx, opts.meta, e.Int()))\n			continue\n		}\n" + arrOld, Expect: "R06f/ucfg.normalizeArray/kind accessor outside normalizeValue"})
+	addControl(control{Prop: "C15", Name: "list-index-rendered-by-itoa", Rule: "R15a", Kind: "refactor",
+		File: "merge.go", Old: "		idx := fmt.Sprintf(\"%v\", i)\n		ctx := context{\n			parent: val,\n			field:  idx,\n		}\n		tmp, err := normalizeValue(opts, tagOpts, ctx, v.Index(i))", New: "		ctx := context{parent: val, field: strconv.Itoa(i)}\n		tmp, err := normalizeValue(opts, tagOpts, ctx, v.Index(i))",
+		More: []edit{{"merge.go", "	\"sort\"\n	\"time\"\n", "	\"sort\"\n	\"strconv\"\n	\"time\"\n"}}})
+}
+
+func init() {
+	addControl(control{Prop: "C12", Name: "setchild-stores-a-copy", Rule: "R12g", Kind: "mutant", Quick: true,
+		File: "getset.go", Old: "	return c.setField(name, idx, cfgSub{c: value}, opts)\n", New: "	return c.setField(name, idx, cfgSub{c: value}.cpy(context{}), opts)\n", Expect: "R12g/(*ucfg.Config).SetChild"})
+	addControl(control{Prop: "C12", Name: "setchild-copies-descendants", Rule: "R12g", Kind: "mutant",
+		File: "getset.go", Old: "	return c.setField(name, idx, cfgSub{c: value}, opts)\n", New: "	for cur := value; cur != nil; cur = cur.Parent() {\n		if cur == c {\n			value = cfgSub{value}.cpy(context{}).(cfgSub).c\n			break\n		}\n	}\n	return c.setField(name, idx, cfgSub{c: value}, opts)\n", Expect: "R12g/(*ucfg.Config).SetChild"})
+	addControl(control{Prop: "C12", Name: "setchild-wrapper-in-a-local", Rule: "R12g", Kind: "refactor",
+		File: "getset.go", Old: "	return c.setField(name, idx, cfgSub{c: value}, opts)\n", New: "	sub := cfgSub{}\n	sub.c = value\n	return c.setField(name, idx, sub, opts)\n"})
+	addControl(control{Prop: "C12", Name: "child-returns-a-copy", Rule: "R12g", Kind: "mutant",
+		File: "getset.go", Old: "	c, fail := v.toConfig(O)\n	return c, convertErr(O, v, fail, \"object\")\n", New: "	c, fail := v.toConfig(O)\n	if c != nil {\n		c = cfgSub{c}.cpy(c.ctx).(cfgSub).c\n	}\n	return c, convertErr(O, v, fail, \"object\")\n", Expect: "R12g/(*ucfg.Config).Child"})
+}
+
+func init() {
+	addControl(control{Prop: "C18", Name: "string-keyed-maps-stored-directly", Rule: "R18h", Kind: "mutant", Quick: true,
+		File: "merge.go", Old: "		err := normalizeSetField(cfg, opts, noTagOpts, k.String(), from.MapIndex(k))\n		if err != nil {\n			return err\n		}\n",
+		New: "		if opts.pathSep == \"\" && from.Type().Key().Kind() == reflect.String {\n			val, verr := normalizeValue(opts, noTagOpts, context{parent: cfgSub{cfg}, field: k.String()}, from.MapIndex(k))\n			if verr != nil {\n				return verr\n			}\n			cfg.fields.set(k.String(), val)\n			continue\n		}\n		err := normalizeSetField(cfg, opts, noTagOpts, k.String(), from.MapIndex(k))\n		if err != nil {\n			return err\n		}\n", Expect: "R18h/ucfg.normalizeMapInto"})
+}
+
+func init() {
+	envNew := "		v, err = r.Path.GetValue(cfg, opts)\n		if err == nil && v != nil {\n			return v, nil\n		}\n"
+	addControl(control{Prop: "C02", Name: "missing-name-ends-the-lookup", Rule: "R02e", Kind: "mutant", Quick: true,
+		File: "variables.go", Old: envNew, New: "		v, err = r.Path.GetValue(cfg, opts)\n		if err == nil {\n			if v == nil {\n				break\n			}\n\n			return v, nil\n		}\n", Expect: "R02e/(*ucfg.reference).resolveRef/nothing found goes on to the next environment"})
+	addControl(control{Prop: "C02", Name: "failed-lookup-ends-the-lookup", Rule: "R02e", Kind: "mutant",
+		File: "variables.go", Old: envNew, New: "		v, err = r.Path.GetValue(cfg, opts)\n		if err != nil {\n			return nil, err\n		}\n		if v != nil {\n			return v, nil\n		}\n", Expect: "R02e/(*ucfg.reference).resolveRef/nothing found goes on to the next environment"})
+	addControl(control{Prop: "C02", Name: "found-test-in-a-flag", Rule: "R02e", Kind: "refactor",
+		File: "variables.go", Old: envNew, New: "		v, err = r.Path.GetValue(cfg, opts)\n		found := err == nil && v != nil\n		if found {\n			return v, nil\n		}\n"})
+}
+
+func init() {
+	skOld := "	keys := make([]string, 0, len(dict))\n	for k := range dict {\n		keys = append(keys, k)\n	}\n	sort.Strings(keys)\n"
+	skNew := "	keys := make([]string, len(dict))\n	n := 0\n	for k := range dict {\n		keys[n] = k\n		n++\n	}\n	sort.Strings(keys)\n"
+	for _, p := range []struct{ prop, rule string }{{"C01", "R01d"}, {"C07", "R07a"}, {"C09", "R09a"}} {
+		addControl(control{Prop: p.prop, Name: "sorted-keys-filled-by-position", Rule: p.rule, Kind: "refactor",
+			File: "ucfg.go", Old: skOld, New: skNew})
+	}
+	addControl(control{Prop: "C07", Name: "sorted-keys-filled-by-position-one-short", Rule: "R07a", Kind: "mutant",
+		File: "ucfg.go", Old: skOld, New: strings.Replace(skNew, "make([]string, len(dict))", "make([]string, len(dict)-1)", 1), Expect: "R07a/ucfg.sortedKeys"})
+	addControl(control{Prop: "C07", Name: "sorted-keys-filled-by-position-advanced-twice", Rule: "R07a", Kind: "mutant",
+		File: "ucfg.go", Old: skOld, New: strings.Replace(skNew, "		n++\n", "		n++\n		if k == \"\" {\n			n++\n		}\n", 1), Expect: "R07a/ucfg.sortedKeys"})
+	addControl(control{Prop: "C01", Name: "sorted-keys-filled-by-position-skips-a-key", Rule: "R01d", Kind: "mutant",
+		File: "ucfg.go", Old: skOld, New: strings.Replace(skNew, "		keys[n] = k\n", "		if k == \"\" {\n			continue\n		}\n		keys[n] = k\n", 1), Expect: "R01d/ucfg.sortedKeys"})
+	addControl(control{Prop: "C09", Name: "sorted-keys-filled-by-position-unsorted", Rule: "R09a", Kind: "mutant",
+		File: "ucfg.go", Old: skOld, New: strings.Replace(skNew, "	sort.Strings(keys)\n", "", 1), Expect: "R09"})
+	addControl(control{Prop: "C15", Name: "padding-context-set-member-by-member", Rule: "R15a", Kind: "refactor",
+		File: "ucfg.go", Old: "			ctx := context{parent: parent, field: fmt.Sprintf(\"%d\", i)}\n			tmp[i] = &cfgNil{cfgPrimitive{ctx, nil}}\n", New: "			filler := &cfgNil{}\n			filler.ctx.parent = parent\n			filler.ctx.field = fmt.Sprintf(\"%d\", i)\n			tmp[i] = filler\n"})
+	addControl(control{Prop: "C15", Name: "padding-context-set-member-by-member-wrong-index", Rule: "R15a", Kind: "mutant",
+		File: "ucfg.go", Old: "			ctx := context{parent: parent, field: fmt.Sprintf(\"%d\", i)}\n			tmp[i] = &cfgNil{cfgPrimitive{ctx, nil}}\n", New: "			filler := &cfgNil{}\n			filler.ctx.parent = parent\n			filler.ctx.field = fmt.Sprintf(\"%d\", idx)\n			tmp[i] = filler\n", Expect: "R15a/(*ucfg.fields).setAt/padding element"})
+}
+
+func init() {
+	riOld := "	i, err := val.toInt(opts.opts)\n	if err != nil {\n		return reflect.Value{}, raiseConversion(opts.opts, val, err, \"int\")\n	}\n\n	tmp := reflect.Zero(t)\n	if tmp.OverflowInt(i) {\n		return reflect.Value{}, raiseConversion(opts.opts, val, ErrOverflow, \"int\")\n	}\n"
+	riNew := "	i, err := val.toInt(opts.opts)\n	if err == nil {\n		if tmp := reflect.Zero(t); tmp.OverflowInt(i) {\n			err = ErrOverflow\n		}\n	}\n	if err != nil {\n		return reflect.Value{}, raiseConversion(opts.opts, val, err, \"int\")\n	}\n"
+	addControl(control{Prop: "C03", Name: "overflow-recorded-in-the-error", Rule: "R03c", Kind: "refactor", Quick: true,
+		File: "reify.go", Old: riOld, New: riNew})
+	addControl(control{Prop: "C03", Name: "overflow-recorded-for-positive-numbers-only", Rule: "R03c", Kind: "mutant",
+		File: "reify.go", Old: riOld, New: strings.Replace(riNew, "			err = ErrOverflow\n", "			if i > 0 {\n				err = ErrOverflow\n			}\n", 1), Expect: "R03c/ucfg.reifyInt"})
+	addControl(control{Prop: "C03", Name: "overflow-recorded-then-cleared", Rule: "R03c", Kind: "mutant",
+		File: "reify.go", Old: riOld, New: strings.Replace(riNew, "	if err != nil {\n		return reflect.Value{}, raiseConversion(opts.opts, val, err, \"int\")", "	if err != nil && err != ErrOverflow {\n		return reflect.Value{}, raiseConversion(opts.opts, val, err, \"int\")", 1), Expect: "R03c/ucfg.reifyInt"})
 }
